@@ -20,25 +20,6 @@ Section FLb.
   Variable cp : cprog.
   Hypothesis Hcod : cpcodata cp = codata_of p.
 
-  (* ---------- Core-only steps ---------- *)
-  Definition rreach (r r' : sres) : Prop :=
-    exists k, forall m out, crun_res cp (k + m) r out = crun_res cp m r' out.
-  Lemma rreach_refl : forall r, rreach r r.
-  Proof. intros r. exists 0%nat. reflexivity. Qed.
-  Lemma rreach_step : forall c r', rreach (cstep cp c) r' -> rreach (SNext c) r'.
-  Proof.
-    intros c r' [k H]. exists (S k). intros m out. simpl plus.
-    change (crun (S (k + m)) cp c out = crun_res cp m r' out). rewrite crun_S. apply H.
-  Qed.
-  Lemma rreach_trans : forall r1 r2 r3, rreach r1 r2 -> rreach r2 r3 -> rreach r1 r3.
-  Proof.
-    intros r1 r2 r3 [k1 H1] [k2 H2]. exists (k1 + k2)%nat. intros m out. rewrite <- Nat.add_assoc, H1. apply H2.
-  Qed.
-  Lemma sim_rreach : forall n cf r r', sim p cp n cf r' -> rreach r r' -> sim p cp n cf r.
-  Proof.
-    intros n cf r r' H [k Hk] out o Hr F. destruct (H out o Hr F) as [m Hm]. exists (k + m)%nat. rewrite Hk. exact Hm.
-  Qed.
-
   (* ---------- argument lists ---------- *)
   Definition cargs_res (done : list bval) (rest : list carg) (ce : cenv) (f : fin) : sres :=
     match rest with
@@ -56,7 +37,7 @@ Section FLb.
 
   Lemma bind_args_run : forall bs env f done,
     (forall bb, In bb bs -> exists b', clookup env (cbvar bb) = Some b' /\ ckind b' = cbchi bb) ->
-    rreach (cargs_res done (map arg_of_binding bs) env f)
+    rreach cp (cargs_res done (map arg_of_binding bs) env f)
            (finish_args cp f (rev_append done [] ++ lookups env bs)).
   Proof.
     induction bs as [|bb r IH]; intros env f done Hk.
@@ -96,7 +77,7 @@ Section FLb.
     cfind_def cp (new_id name) = Some (mkcd (new_id name) bs body) ->
     (forall bb, In bb bs -> exists b', clookup env (cbvar bb) = Some b' /\ ckind b' = cbchi bb) ->
     exists env_l, agree (cnames bs) env env_l /\
-                  rreach (SNext (Run (CCall (new_id name) (map arg_of_binding bs) ty) env)) (SNext (Run body env_l)).
+                  rreach cp (SNext (Run (CCall (new_id name) (map arg_of_binding bs) ty) env)) (SNext (Run body env_l)).
   Proof.
     intros name bs body ty env Hf Hk.
     destruct (cbind_lookups bs env) as [env_l [Hb Hl]].
@@ -109,10 +90,10 @@ Section FLb.
 
   (* ---------- sharing ---------- *)
   Lemma share_CK : forall n cur cont st cont1 st0 k ce (S : cident -> Prop),
-    share cur cont st = Ok (cont1, st0) -> cont_is_small cont = false -> cont_shape cp cont ->
+    share cur cont st = Ok (cont1, st0) -> cont_is_small cont = false -> cont_shape cp false cont ->
     (forall x, In x (cnames (fvt cont)) -> exists y, x = new_id y /\ In y (st_used_vars st)) ->
     (forall d, In d (st_lifted st0) -> cfind_def cp (cdname d) = Some d) ->
-    CK p cp n k cont ce S -> CK p cp n k cont1 ce S /\ cont_shape cp cont1.
+    CK p cp n false k cont ce S -> CK p cp n false k cont1 ce S /\ cont_shape cp false cont1.
   Proof.
     intros n cur cont st cont1 st0 k ce S Hsh Hns Hshape Hnames Hlift [Hkinds HK].
     destruct (share_inv _ _ _ _ _ Hsh) as [var [ty [body [stv [name [Hm [Hv [Hl Hk1]]]]]]]].
@@ -123,13 +104,13 @@ Section FLb.
     assert (HF : (forall bb, In bb (fvs body) -> bb = mkcb var CPrd ty \/ In bb (fvt cont)) /\
                  (forall bb, In bb (fvt cont) -> In bb (fvs body) /\ bb <> mkcb var CPrd ty) /\
                  ~ In var (cnames (fvt cont)) /\ is_codata cp ty = false /\
-                 (KS p cp n k cont ce ->
+                 (KS p cp n false k cont ce ->
                   forall j, (j < n)%nat -> forall v pv, dval v -> vrel p cp j v pv ->
                   forall env, agree (cnames (fvs body)) ((var, BP pv) :: ce) env ->
                   sim p cp j (FRet k v) (SNext (Run body env)))).
-    { destruct cont; simpl in Hshape; try contradiction; try discriminate Hns.
+    { destruct cont; simpl in Hshape; try contradiction; try discriminate Hns; try discriminate Hshape.
       - (* mu~ *)
-        destruct Hm as [E1 [E2 [E3 E4]]]. subst. destruct Hshape as [Hc [Hcd Hclean]]. subst c.
+        destruct Hm as [E1 [E2 [E3 E4]]]. subst. destruct Hshape as [_ [Hc [Hcd Hclean]]]. subst c.
         split; [|split; [|split; [|split]]].
         + intros bb Hb. destruct (cbinding_eqb bb (mkcb v CPrd t)) eqn:E.
           * left. apply cbinding_eqb_eq. exact E.
@@ -147,7 +128,7 @@ Section FLb.
         + intros bb Hb. apply fvs_cut in Hb. destruct Hb as [Hb|Hb]; [left; apply fvt_var in Hb; exact Hb | right; exact Hb].
         + intros bb Hb. split; [apply fvs_cut; right; exact Hb|]. intros Eb. subst bb. apply Hx. apply (in_cnames _ _ Hb).
         + exact Hx.
-        + exact Hshape.
+        + exact (proj2 Hshape).
         + intros HKS j Hj v pv Hd Hvr env Ha. apply sim_cstep. rewrite cstep_cut_var; [|exact Hshape].
           assert (Hag : agree (cnames (fvt (CXCase c cls t))) ce env).
           { intros y Hy. rewrite (Ha y).
@@ -169,7 +150,7 @@ Section FLb.
       apply Hkinds; assumption.
     - (* meaning *)
       intros Hall.
-      assert (HKS : KS p cp n k cont ce).
+      assert (HKS : KS p cp n false k cont ce).
       { apply HK. intros x Hx. apply Hall. apply in_cnames_inv in Hx. destruct Hx as [bb [Hb E]]. subst x.
         apply in_cnames. apply F1. apply F3. exact Hb. }
       subst cont1. simpl. intros j Hj v pv Hd Hvr env Ha.
@@ -187,7 +168,7 @@ Section FLb.
       apply in_cnames_inv in Hy. destruct Hy as [bb [Hb E]]. subst y. apply in_cnames.
       apply (proj2 (fvs_call _ _ _ _)). apply fva_arg_of_binding. exact Hb.
     - (* shape *)
-      subst cont1. simpl. split; [reflexivity|]. split; [exact F6|].
+      subst cont1. simpl. split; [reflexivity|]. split; [reflexivity|]. split; [exact F6|].
       intros Hin. apply in_cnames_inv in Hin. destruct Hin as [bb [Hb E]].
       change (In bb (fvt (CMu CCns var (CCall (new_id name) (map arg_of_binding (tfv_stmt body [])) ty) ty))) in Hb.
       apply F1 in Hb.
